@@ -106,7 +106,9 @@ def make (c):
     # (wires of two segments tapered from one end have segments of one and two thirds of their length)
     r2 = np.random.default_rng ([c ['seed'], 181, c ['i']])
     if r2.random () < 0.4 and not spec.get ('fuzzy'):
-        cand = [g for g in geo if g ['k'] == 'w' and np.linalg.norm (np.array (g ['p2']) - np.array (g ['p1'])) <= gen.C_MHZ / spec ['f'] / 4
+        # (wires of two or three segments: as two tapered segments of one and two thirds they stay within a factor of
+        # about two of the segments they had, and of their neighbours)
+        cand = [g for g in geo if g ['k'] == 'w' and g ['n'] in (2, 3) and np.linalg.norm (np.array (g ['p2']) - np.array (g ['p1'])) <= gen.C_MHZ / spec ['f'] / 4
                                 and np.linalg.norm (np.array (g ['p2']) - np.array (g ['p1'])) / 6 >= 2.6 * g ['r']]
         if len (cand) > 1 or (cand and len (geo) > 1):
             g = cand [int (r2.integers (0, len (cand)))]
